@@ -244,6 +244,7 @@ def run(tier, seed, only=None):
                 run_obligations(rep, "Rotate effect[%s]" % cn, obs, timeout, levels=(1, 2), fixed=fixed, family=lambda ob: "Rotate: " + ob.meta["family"])
     group_chain(rep, tier, timeout)
     group_defaults(rep, tier, timeout)
+    geometry_group_level(rep, tier, timeout)
     splines(rep)
     rep.bounds = {"meshes": [c[0] for c in cfgs], "ref_axis_pos": "symbolic in [0,1]"}
     rep.assumptions = ["real arithmetic", "input meshes have chordwise lines at constant y, strictly increasing y, the symmetric root on y = 0 at the last index "
@@ -457,3 +458,110 @@ def group_defaults(rep, tier, timeout):
 
         run_obligations(rep, "real GeometryMesh without design-variable keys [%s]" % cn, obs, timeout, replay=rp,
                         family=lambda ob: "GeometryMesh: " + ob.meta["family"])
+
+
+def geometry_group_level(rep, tier, timeout):
+    """The real Geometry group (B-spline control points -> spanwise distributions -> GeometryMesh transformations),
+    executed through its own wiring: every distributed design variable of the mesh group is the spline of *its own*
+    control points (equal control points c give the constant distribution c at every station, whatever the other
+    control points are), every scalar design variable is the group's input of the same name, and t_over_c likewise."""
+    import warnings
+
+    import openmdao.api as om
+    from openaerostruct.geometry.geometry_group import Geometry
+    from symoas import pipe
+    from symoas.sym import fabs, substitute, variables
+
+    cfgs = [("symL_2x3", 2, 3, True, 2), ("full_3x5", 3, 5, False, 3)] if tier == "quick" else [("symL_2x3", 2, 3, True, 2), ("full_3x5", 3, 5, False, 3), ("symL_2x5", 2, 5, True, 4)]
+    dist = {"twist": "rotate.twist", "chord": "scale_x.chord", "xshear": "shear_x.xshear", "yshear": "shear_y.yshear", "zshear": "shear_z.zshear"}
+    scal = {"sweep": "sweep.sweep", "dihedral": "dihedral.dihedral", "taper": "taper.taper", "span": "stretch.span"}
+    for (cn, nx, ny, symm, ncp) in cfgs:
+        cm = K.rect_mesh(nx, ny, symm)
+        surf = K.surface_from_mesh(cm, symm, name="wing", taper=1.0, sweep=0.0, dihedral=0.0, span=float((cm[0, -1, 1] - cm[0, 0, 1]) * (2 if symm else 1)),
+                                   chord_cp=np.ones(ncp), twist_cp=np.zeros(ncp), xshear_cp=np.zeros(ncp), yshear_cp=np.zeros(ncp), zshear_cp=np.zeros(ncp),
+                                   t_over_c_cp=0.12 * np.ones(ncp))
+        prob = om.Problem(reports=False)
+        prob.model.add_subsystem("geo", Geometry(surface=surf))
+        with warnings.catch_warnings():
+            warnings.simplefilter("ignore")
+            prob.setup()
+            prob.final_setup()
+        rep.encode(Geometry)
+        GP = pipe.GroupPipe(prob)
+        GP.run()
+        obs = []
+        c = var("c")
+        for dv, tail in dist.items():
+            got = np.asarray(c17_input(GP, "geo.mesh." + tail), dtype=object).ravel()
+            own = sorted({v.args[0] for x in got for v in variables([S(x)]) if (".%s_cp[" % dv) in v.args[0] or v.args[0].startswith("%s_cp[" % dv)})
+            flat = [S(x) for x in got]
+            sub = substitute(flat, {n: c for n in own}) if own else {x.nid: x for x in flat}
+            for j, x in enumerate(flat):
+                obs.append(oblig.Ob("%s station %d" % (dv, j), cond=gt(fabs(sub[x.nid] - c), S(1e-12)),
+                                    meta={"family": "each distributed design variable of the mesh is the B-spline of its own control points", "dv": dv}))
+        toc = [S(x) for x in np.asarray(GP.get("geo.t_over_c"), dtype=object).ravel()]
+        own = sorted({v.args[0] for x in toc for v in variables([x]) if "t_over_c_cp[" in v.args[0]})
+        sub = substitute(toc, {n: c for n in own}) if own else {x.nid: x for x in toc}
+        for j, x in enumerate(toc):
+            obs.append(oblig.Ob("t_over_c panel %d" % j, cond=gt(fabs(sub[x.nid] - c), S(1e-12)),
+                                meta={"family": "t_over_c is the B-spline of the t_over_c control points", "dv": "t_over_c"}))
+        for dv, tail in scal.items():
+            got = S(np.asarray(c17_input(GP, "geo.mesh." + tail), dtype=object).ravel()[0])
+            names = [v.args[0] for v in variables([got])]
+            ok = len(names) == 1 and names[0].split("[")[0].split(".")[-1] == dv
+            obs.append(oblig.Ob("%s input" % dv, cond=ne(S(1 if ok else 0), 1),
+                                meta={"family": "each scalar design variable reaches the transformation of the same name", "dv": dv, "fed_by": names}))
+
+        def rp(ob, env, surf=surf, nx=nx, ny=ny):
+            return replay_geometry_group(surf, ob.meta["dv"])
+
+        run_obligations(rep, "real Geometry group: design-variable plumbing [%s, %d control points]" % (cn, ncp), obs, timeout, replay=rp,
+                        family=lambda ob: "Geometry: " + ob.meta["family"], cut_threshold=0)
+
+
+def c17_input(GP, abs_in):
+    src = GP.conn.get(abs_in)
+    if src is None or src not in GP.vals:
+        raise KeyError(abs_in)
+    return GP.vals[src]
+
+
+def replay_geometry_group(surf, dv):
+    """the real Geometry group on floats: setting only the control points / value of one design variable to a constant
+    must change exactly that distribution"""
+    import warnings
+
+    import openmdao.api as om
+    from openaerostruct.geometry.geometry_group import Geometry
+
+    def run(over):
+        prob = om.Problem(reports=False)
+        prob.model.add_subsystem("geo", Geometry(surface=surf))
+        with warnings.catch_warnings():
+            warnings.simplefilter("ignore")
+            prob.setup()
+            for k, v in over.items():
+                prob.set_val("geo." + k, v)
+            prob.run_model()
+        return prob
+
+    ncp = len(surf["twist_cp"])
+    tails = {"twist": "rotate.twist", "chord": "scale_x.chord", "xshear": "shear_x.xshear", "yshear": "shear_y.yshear", "zshear": "shear_z.zshear",
+             "sweep": "sweep.sweep", "dihedral": "dihedral.dihedral", "taper": "taper.taper", "span": "stretch.span"}
+    val = 0.37
+    if dv == "t_over_c":
+        p = run({"t_over_c_cp": val * np.ones(ncp)})
+        got = np.array(p.get_val("geo.t_over_c"), dtype=float)
+        return np.abs(got - val).max() > 1e-9, "t_over_c_cp = %g everywhere gives t_over_c = %s" % (val, np.round(got, 6))
+    name = dv + "_cp" if dv in ("twist", "chord", "xshear", "yshear", "zshear") else dv
+    p = run({name: val * (np.ones(ncp) if name.endswith("_cp") else 1.0)})
+    got = np.array(p.get_val("geo.mesh." + tails[dv]), dtype=float).ravel()
+    bad = np.abs(got - val).max() > 1e-9
+    others = []
+    for o, t in tails.items():
+        if o != dv:
+            base = np.array(run({}).get_val("geo.mesh." + t), dtype=float).ravel()
+            now = np.array(p.get_val("geo.mesh." + t), dtype=float).ravel()
+            if np.abs(base - now).max() > 1e-9:
+                others.append(o)
+    return bad or bool(others), "%s = %g gives the %s transformation input %s%s" % (name, val, dv, np.round(got, 6), (" and changes " + ", ".join(others)) if others else "")
